@@ -185,6 +185,12 @@ def int_paths(obj, prefix=()):
     return out
 
 
+def path_value(obj, path):
+    for k in path:
+        obj = obj[k]
+    return obj
+
+
 def enumerate_single_faults(answer_obj, text, cfg):
     """The complete single-fault space for one valid answer."""
     faults = []
@@ -209,6 +215,13 @@ def enumerate_single_faults(answer_obj, text, cfg):
                                'perturb': True})
     for g in GARBAGE:
         faults.append({'kind': 'garbage', 'hex': g.hex()})
+    # unpaired surrogates spelt with upper-case hex digits (two faults at
+    # once: the retyping and the spelling of the escapes)
+    for p in paths:
+        if isinstance(path_value(answer_obj, p), str):
+            faults.append([{'kind': 'retype_field', 'path': p,
+                            'value': 'cut \ud83d'},
+                           {'kind': 'upper_escapes'}])
     return faults, len(raw)
 
 
@@ -396,17 +409,20 @@ def run(seed, tier, budget_s):
         if quick:
             # every deletion, retyping, perturbation and garbage output; a
             # seeded share of the byte truncations
-            trunc = [f for f in faults if f['kind'] == 'truncate']
-            chosen = [f for f in faults if f['kind'] != 'truncate']
+            trunc = [f for f in faults if isinstance(f, dict)
+                     and f['kind'] == 'truncate']
+            chosen = [f for f in faults if not (isinstance(f, dict)
+                                                and f['kind'] == 'truncate')]
             if b['peer'].get('ensure_ascii') and b['names'] == ['fix.tex']:
                 # the \uXXXX twins of the fixed bases exist for the byte
                 # truncations; field faults are covered by their raw twins
-                chosen = [f for f in chosen if f['kind'] in ('garbage',
-                                                             'delete_field')]
+                chosen = [f for f in chosen if isinstance(f, dict)
+                          and f['kind'] in ('garbage', 'delete_field')]
             if b.get('_derived'):
                 # other transport / server variants of a base: a seeded third
                 # of the plain retypings, everything else in full
-                chosen = [f for f in chosen if f['kind'] != 'retype_field'
+                chosen = [f for f in chosen if isinstance(f, list)
+                          or f['kind'] != 'retype_field'
                           or f.get('perturb') or frng.random() < 0.34]
             chosen += frng.sample(trunc, min(len(trunc),
                                              60 if b.get('_derived') else 160))
@@ -419,8 +435,9 @@ def run(seed, tier, budget_s):
         if others:
             k2, obj2, text2 = frng.choice(others)
             f2, _ = enumerate_single_faults(obj2, text2, b['peer'])
-            f2 = [f for f in f2 if f.get('perturb') or f['kind'] == 'garbage'
-                  or (f['kind'] == 'delete_field' and len(f['path']) <= 3)]
+            f2 = [f for f in f2 if isinstance(f, dict) and (
+                f.get('perturb') or f['kind'] == 'garbage'
+                or (f['kind'] == 'delete_field' and len(f['path']) <= 3))]
             for f in f2:
                 plans.append(with_fault(b, k2, f, nxt()))
         if len(batch.samples) < 3:
@@ -559,7 +576,7 @@ def run(seed, tier, budget_s):
             faults, _ = enumerate_single_faults(obj, text, b['peer'])
             fs = [mrng.choice(faults) for _ in range(mrng.randrange(2, 4))]
             # truncation, if any, goes last (it acts on the bytes)
-            fs.sort(key=lambda f: f['kind'] == 'truncate')
+            fs.sort(key=lambda f: isinstance(f, dict) and f['kind'] == 'truncate')
             plans.append(with_fault(b, k, fs, nxt()))
 
     for i in range(0, len(plans), 2000):
